@@ -38,7 +38,9 @@ var serverAlphabet = []CIn{
 	{Kind: "bad"},               // 22
 	{Kind: "eof"},               // 23
 	{Kind: "data", Sub: "ping"}, // 24 a ping request command (servers often auto-reply these)
-	{Kind: "data", Sub: "not"},  // 25
+	{Kind: "data", Sub: "not"},
+	// an authentication member that is an empty object: the peer presents the scheme but no secret (token 9999)
+	ses("SID", "authenticating", "", "", "plain", ip(9999)),  // 25
 }
 
 var serverConfs = []*SConf{
